@@ -1,8 +1,13 @@
 import Vanguard.Lemmas.Router
 import Vanguard.Lemmas.PathEscape
+import Vanguard.Lemmas.Captures
 /-!
   C06 — Routing dispatches exactly the method whose binding matches the request.
   Theorems about `findTarget` (the trie walk) for *every* route table, path, verb and method.
+  The one hypothesis of the whole-outcome theorem `route_match_spec` - captures lie inside their
+  template - is proved of every table built by `routeTrie.insert` from parsed templates
+  (`built_tables_capture_in_range`), which gives `route_match_spec_built` and
+  `route_match_never_panics`.
 -/
 namespace Vanguard.C06
 open Vanguard Vanguard.Spec
@@ -353,5 +358,39 @@ example :
     let wild : Route := { segs := [[0x61], starSeg], verb := [], method := [0x47], idx := 1, tmpl := t }
     (match findTarget [lit, wild] [[0x61], [0x63]] [] [0x47] with | .target r => r.idx | _ => 99) = 1 := by
   decide
+
+/-! ### the hypothesis `CapturesInRange` holds for every table the transcoder can build -/
+
+/-- **Tables built by `routeTrie.insert` have their captures in range**: every template the parser
+    accepts keeps each bounded variable inside its segments, and a matched path is at least as long as
+    the template. -/
+theorem built_tables_capture_in_range (rules : List (Bytes × Bytes)) (routes : List Route)
+    (h : addRoutes 0 [] rules = .ok routes) : CapturesInRange routes :=
+  routesOk_captures routes (addRoutes_ok rules 0 [] routes h (fun _ hr => by simp at hr))
+
+/-- **`route_match_spec` without hypothesis** for every table of bindings the transcoder accepts. -/
+theorem route_match_spec_built (rules : List (Bytes × Bytes)) (routes : List Route)
+    (h : addRoutes 0 [] rules = .ok routes) (uriPath method : Bytes) :
+    routeOutcomeOk routes uriPath method (routeMatch routes uriPath method) = true :=
+  route_match_spec routes uriPath method (built_tables_capture_in_range rules routes h)
+
+/-- **Routing never panics** on a table the transcoder accepted, whatever the request path and method
+    (no capture slices out of range). -/
+theorem route_match_never_panics (rules : List (Bytes × Bytes)) (routes : List Route)
+    (h : addRoutes 0 [] rules = .ok routes) (uriPath method : Bytes) :
+    routeMatch routes uriPath method ≠ .panic := by
+  intro hp
+  have := route_match_spec_built rules routes h uriPath method
+  rw [hp] at this
+  unfold routeOutcomeOk at this
+  split at this
+  · split at this
+    · simp at this
+    · simp at this
+  · simp at this
+
+/-- Non-vacuity: a table with a bounded and an unbounded capture is accepted. -/
+example : (addRoutes 0 [] [("GET".toUTF8.toList, "/v1/{name=shelves/*}/books/{rest=**}".toUTF8.toList)]).toOption.isSome = true := by
+  decide +kernel
 
 end Vanguard.C06
